@@ -105,3 +105,8 @@ pub fn c14_bufwriter_bypass(w: &mut std::io::BufWriter<std::fs::File>) -> std::i
     f.write_all(w.buffer())?;
     f.flush()
 }
+
+// ---- C15-R6: lexicographic maximum of a pair of counts ------------------------------------------------
+pub fn c15_pair_max(a: (u64, u64), b: (u64, u64)) -> (u64, u64) {
+    a.max(b)
+}
